@@ -151,7 +151,8 @@ def shape_of(text, limit=80):
 
 # ------------------------------------------------------------------------------------------ directed workload
 MENTION_CONTEXTS = ['plain', 'diffswitch', 'diffswitch-nested', 'diffswitch-nested-deep', 'diffswitch-in-call', 'diffswitch-in-binop', 'ternary-branch', 'if-cond', 'while-cond',
-                    'assign-op', 'unary', 'cast', 'call-arg', 'nested-block', 'times-count', 'diffswitch-in-cond', 'diffswitch-lhs-of-binop-with-dest']
+                    'assign-op', 'unary', 'cast', 'call-arg', 'nested-block', 'times-count', 'diffswitch-in-cond', 'diffswitch-lhs-of-binop-with-dest',
+                    'diffswitch-dead-under-label']
 
 def gen_single_mention(rng, int_regs, float_regs, other_int, other_float, name, call_int='call_S', call_float='call_f', has_cast=True, ctxs=None, sentinel='ins_101();'):
     """A body in which one scratch-candidate register (the victim) is mentioned exactly once, in a chosen syntactic context, while
@@ -173,6 +174,7 @@ def gen_single_mention(rng, int_regs, float_regs, other_int, other_float, name, 
     elif ctx == 'diffswitch': m = '%s = (%s:%s:%s:%s);' % (d, v, lit(), lit(), lit())
     elif ctx == 'diffswitch-nested': m = '%s = ((%s:%s:%s:%s):%s:%s:%s);' % (d, v, lit(), lit(), lit(), lit(), lit(), lit())
     elif ctx == 'diffswitch-nested-deep': m = '%s = (%s:(%s:(%s:%s:%s:%s)::):%s:%s);' % (d, lit(), lit(), v, lit(), lit(), lit(), lit(), lit())
+    elif ctx == 'diffswitch-dead-under-label': m = '{"0"}: %s = (%s + %s : %s + %s : %s : %s);' % (d, p, lit(), v, lit(), lit(), lit())      # the (compound) case that mentions the victim is for a difficulty the label excludes
     elif ctx == 'diffswitch-in-call': m = '%s((%s:%s:%s:%s));' % (call, v, lit(), lit(), lit())
     elif ctx == 'diffswitch-in-binop': m = '%s = (%s * %s) + (%s:%s:%s:%s);' % (d, p, lit(), lit(), v, lit(), lit())
     elif ctx == 'diffswitch-lhs-of-binop-with-dest': m = '%s = (%s:%s:%s:%s) - (%s * %s);' % (d, d, v, lit(), lit(), p, lit())
